@@ -112,12 +112,19 @@ def r1(R1, cfg, F):
         rc = [c for c in rp.calls() if c.callee and c.callee.best == 'std::cell::Cell::<T>::replace']
         ag = [s for _, _, s in rp.assigns() if s['place']['l'] == 0 and s['rv']['k'] == 'aggregate']
         ok = len(rc) == 1 and len(ag) == 1 and rp.access_path(rc[0].args[0]) == ['arg1'] and rp.access_path(rc[0].args[1]) == ['arg2']
+        f_cell = f_val = None
         if ok:
-            f = dict(zip(ag[0]['rv']['fields'], ag[0]['rv']['ops']))
-            ok = rp.access_path(f['cell']) == ['arg1'] and rp.access_path(f['val']) == ['call@bb%d' % rc[0].bb]
+            # the two fields are told apart by what is stored in them, not by their names
+            for nm, op in zip(ag[0]['rv']['fields'], ag[0]['rv']['ops']):
+                ap = rp.access_path(op)
+                if ap == ['arg1']:
+                    f_cell = nm
+                elif ap == ['call@bb%d' % rc[0].bb]:
+                    f_val = nm
+            ok = f_cell is not None and f_val is not None and len(ag[0]['rv']['ops']) == 2
         R1.check(ok, cfg, rp.path, 'guard-remembers-previous-value', 'CellGuard::replace must remember the previous content of the cell it overwrites', rp.loc())
         sc = [c for c in dp.calls() if c.callee and c.callee.best == 'std::cell::Cell::<T>::set']
-        ok = len(sc) == 1 and dp.access_path(sc[0].args[0]) == ['arg1', '*', 'cell'] and dp.access_path(sc[0].args[1]) == ['arg1', '*', 'val']
+        ok = len(sc) == 1 and f_cell is not None and dp.access_path(sc[0].args[0]) == ['arg1', '*', f_cell] and dp.access_path(sc[0].args[1]) == ['arg1', '*', f_val]
         R1.check(ok, cfg, dp.path, 'drop-restores-previous-value', 'CellGuard::drop must store the remembered value back into the same cell', dp.loc())
     # RECORDING is written only through CellGuard
     for c in F.calls_to(r'^std::cell::Cell::<T>::(set|replace|take|swap|update|get_mut|into_inner|as_ptr)$'):
